@@ -14,7 +14,7 @@ def tsan_summary(stderr):
     reps = [r for r in core.sanitizer_reports(stderr) if r["kind"] == "tsan"]
     out = []
     for r in reps:
-        frames = [f for f in r["frames"] if "/repo/" in f[1]]
+        frames = [f for f in r["frames"] if "/repo/" in f[1] or f[1].startswith(B.REPO)]
         sites = []
         for func, path, line in frames:
             s = re.sub(r"\(.*$", "", func) + "@" + os.path.basename(path)
